@@ -115,3 +115,41 @@ func TestVerifRace(t *testing.T) {
 	close(done)
 	wg.Wait()
 }
+
+// TestVerifRaceState: the inbound dispatch goroutine (which reads the session state in its
+// handlers) against the state changes the timer goroutines make (changeState is what they call).
+func TestVerifRaceState(t *testing.T) {
+	st := memory.NewStorage()
+	f := newAcceptor(st, 1, 60, 50*time.Millisecond, "0")
+	f.logon("CLI", "SRV", 1, 30)
+	var stop int32
+	var wg sync.WaitGroup
+	wg.Add(3)
+	go func() {
+		defer wg.Done()
+		for atomic.LoadInt32(&stop) == 0 {
+			<-f.h.Outgoing()
+		}
+	}()
+	go func() { // timer goroutine role: probe state set / reset
+		defer wg.Done()
+		for atomic.LoadInt32(&stop) == 0 {
+			f.s.changeState(WaitingTestReqAnswer, false)
+			f.s.changeState(SuccessfulLogged, false)
+		}
+	}()
+	go func() { // inbound dispatch role
+		defer wg.Done()
+		seq := 2
+		for atomic.LoadInt32(&stop) == 0 {
+			hb := fixgen.CreateHeartbeat()
+			setHdr(hb.Header(), "CLI", "SRV", seq)
+			seq++
+			_ = f.h.VerifServe(wire(hb))
+		}
+	}()
+	time.Sleep(400 * time.Millisecond)
+	atomic.StoreInt32(&stop, 1)
+	_ = f.s.Send(fixgen.CreateHeartbeat()) // unblock the drain loop
+	wg.Wait()
+}
